@@ -100,14 +100,14 @@ type GhostStmt struct {
 	Anchor string // "entry" | "exit" | "backedge N" | "before F#n" | "after F#n"
 	Cond   Expr
 	// target
-	Kind   string // "field" (X.Field := V) | "bulk" (Field := lambda over ref) | "seqfield" (X.Field := lambda over index)
-	X      Expr
-	Field  string
-	Owner  string // for bulk: type name
-	V      Expr
-	Idx    Expr
-	Text   string
-	Line   int
+	Kind  string // "field" (X.Field := V) | "bulk" (Field := lambda over ref) | "seqfield" (X.Field := lambda over index)
+	X     Expr
+	Field string
+	Owner string // for bulk: type name
+	V     Expr
+	Idx   Expr
+	Text  string
+	Line  int
 }
 
 type FuncSpec struct {
@@ -125,9 +125,18 @@ type FuncSpec struct {
 	Props     []string
 	Line      int
 	Decreases []Expr
-	NoVerify  string // reason: listed as not verified (contract assumed)
+	NoVerify  string            // reason: listed as not verified (contract assumed)
 	GhostVars []GhostVar        // function-level ghost variables (Init only)
 	GhostRes  map[string]string // ghost results: name -> "int" | "mapint" | "bool"
+	Focus     []FocusSpec
+}
+
+// FocusSpec: proof hint. Obligations whose name (after "pkg.Func:") matches Obl are first tried with only those labelled
+// assumptions (requires, loop invariants, callee postconditions, lemmas) whose tag matches one of Keep; the full context
+// is the fallback. Dropping assumptions can only make a proof harder, never unsound.
+type FocusSpec struct {
+	Obl  string
+	Keep []string
 }
 
 type PredDef struct {
@@ -500,7 +509,7 @@ var directiveKeywords = map[string]bool{
 	"pred": true, "ghost": true, "func": true, "requires": true, "ensures": true, "modifies": true,
 	"inline": true, "trusted": true, "loop": true, "invariant": true, "decreases": true, "lemma": true,
 	"panics-iff": true, "props": true, "ghostvar": true, "at": true, "vars": true, "induction": true, "noverify": true,
-	"assert": true, "ghostresult": true,
+	"assert": true, "ghostresult": true, "focus": true,
 }
 
 type rawDirective struct {
@@ -779,6 +788,18 @@ func parseSpecFile(pkg string, f *ast.File, lineOf func(ast.Node) int) (*SpecFil
 			cur.Trusted = true
 		case "noverify":
 			cur.NoVerify = d.text
+		case "focus":
+			ci := strings.Index(d.text, " : ")
+			if ci < 0 || cur == nil {
+				return nil, fmt.Errorf("line %d: focus <obligation glob> : <tag glob>, ...", d.line)
+			}
+			fs := FocusSpec{Obl: strings.TrimSpace(d.text[:ci])}
+			for _, k := range strings.Split(d.text[ci+3:], ",") {
+				if k = strings.TrimSpace(k); k != "" {
+					fs.Keep = append(fs.Keep, k)
+				}
+			}
+			cur.Focus = append(cur.Focus, fs)
 		case "panics-iff":
 			e, err := parseExprString(d.text)
 			if err != nil {
